@@ -72,14 +72,8 @@ class E2ECheck:
                 specs.append({"seed": seed, "profile": profile, "over": over, "start": start,
                               "count": min(per, cnt - start), "pid": self.pid})
                 start += per
-        if self.pid == "C10":
-            # chaos-driven runs in which the bundled policies are shadow-invoked: two thirds on graphs the planners accept
-            nd = int(os.environ.get("VERIF_N_DIRECT", N_DIRECT_C10[tier]))
-            per = -(-nd // (12 if tier == "quick" else 48))
-            for k, start in enumerate(range(0, nd, per)):
-                specs.append({"seed": seed, "kind": "direct", "profile": "direct", "over": {}, "start": start,
-                              "count": min(per, nd - start), "pid": self.pid, "shadow": True,
-                              "variant": None if k % 3 == 2 else "planner"})
+        if self.pid in ("C10", "C11", "C12"):
+            specs += self.shadow_direct_shards(tier, seed)
         elif self.pid in DIRECT_PIDS:
             nd = int(os.environ.get("VERIF_N_DIRECT", N_DIRECT[tier]))
             per = -(-nd // 8)
@@ -87,6 +81,18 @@ class E2ECheck:
                 specs.append({"seed": seed, "kind": "direct", "profile": "direct", "over": {}, "start": start,
                               "count": min(per, nd - start), "pid": self.pid})
         return specs
+
+    def shadow_direct_shards(self, tier, seed):
+        """chaos-driven runs in which the bundled policies are shadow-invoked (C10; C11 / C12 attach their decision hooks):
+        for C10 two thirds, for C11 / C12 all of them on graphs the planners accept"""
+        nd = int(os.environ.get("VERIF_N_DIRECT", N_DIRECT_C10[tier] if self.pid == "C10" else N_DIRECT_C10[tier] // 2))
+        per = -(-nd // (12 if tier == "quick" else 48))
+        out = []
+        for k, start in enumerate(range(0, nd, per)):
+            out.append({"seed": seed, "kind": "direct", "profile": "direct", "over": {}, "start": start,
+                        "count": min(per, nd - start), "pid": self.pid, "shadow": True,
+                        "variant": None if (self.pid == "C10" and k % 3 == 2) else "planner"})
+        return out
 
     def replay_spec(self, case):
         spec = {"seed": case["seed"], "profile": case["profile"], "over": case["over"],
@@ -101,8 +107,12 @@ class E2ECheck:
         from .. import direct
         out = []
         for idx in range(spec["start"], spec["start"] + spec["count"]):
-            world = direct.gen_direct((spec["seed"], idx), variant=spec.get("variant"))
-            ctx = direct.run_direct(world, shadow=spec.get("shadow", False))
+            variant = spec.get("variant")
+            if variant is None and not spec.get("shadow") and idx % 5 == 4:
+                variant = "loader"  # graphs arrive through a streaming workload loader with quiet windows
+            world = direct.gen_direct((spec["seed"], idx), variant=variant)
+            ctx = direct.run_direct(world, shadow=spec.get("shadow", False),
+                                    decision_hooks=self.opts().get("decision_hooks", ()) if spec.get("shadow") else ())
             flags = set(ctx.flags)
             if "planned_before_release" in flags:
                 flags.add("plan_ahead")
@@ -229,7 +239,9 @@ class E2ECheck:
                     ("first placement attempts judged", tot.get("started_at_chosen_time", 0), 500),
                     ("due-completion checks (e2e + direct)", tot.get("due_completion_checks", 0) + tot.get("direct_due_completion_checks", 0), 5000)]
         if p == "C05":
-            return [("terminated runs", tot.get("ev_SIMULATOR_END", 0), 200)]
+            return [("terminated runs", tot.get("ev_SIMULATOR_END", 0), 200),
+                    ("direct-drive runs judged by the early-end rule", tot.get("direct_early_end_judged", 0), 100),
+                    ("streaming-loader updates that found nothing new (quiet windows)", tot.get("direct_loader_quiet_windows", 0), 200)]
         if p == "C06":
             return [("task state transitions", tot.get("transitions", 0), 3000), ("cancellations", tot.get("cancels", 0), 100),
                     ("direct-drive transitions under the chaos policy", tot.get("direct_transitions", 0), 3000),
